@@ -61,12 +61,12 @@ fn variants(t: &T, out: &mut Vec<T>) {
 
 pub fn run(c: &mut Ctx, prop: &str, b: &Budget) {
     let (k, cap) = match (prop, b.thorough) {
-        ("C02", false) | ("C03", false) | ("C12", false) => (4, 60),
-        ("C02", true) | ("C03", true) | ("C12", true) => (5, 700),
+        ("C02", false) | ("C03", false) | ("C12", false) => (5, 120),
+        ("C02", true) | ("C03", true) | ("C12", true) => (6, 1200),
         ("C14", false) => (4, 40),
         ("C14", true) => (5, 400),
-        (_, false) => (4, 400),
-        (_, true) => (6, 6000),
+        (_, false) => (5, 1200),
+        (_, true) => (6, 12000),
     };
     let with_obscured = prop != "C14";
     let all = enumr::up_to(k, with_obscured);
